@@ -153,8 +153,8 @@ def run(ctx):
                 if st.k == "assign" and not st.lhs[1] and h.body.names.get(st.lhs[0]) == "block_length":
                     v = show(hs.x.rvalue(st.rv, hs.x.depth))
                     fs = hf.facts_at(blk.i)
-                    lt = [tr for (a, tr) in fs if a[0] == "lt" and "nb_a_large" in show(a[2]) and ("curr_sbn" in show(a[1]) or show(a[1]) == "value")]
-                    ge = [tr for (a, tr) in fs if a[0] == "le" and "nb_a_large" in show(a[1]) and ("curr_sbn" in show(a[2]) or show(a[2]) == "value")]
+                    lt = [tr for (a, tr) in fs if a[0] == "lt" and "nb_a_large" in show(a[2]) and ("curr_sbn" in show(a[1]) or re.match(r"^value(~\d+)?$", show(a[1])))]
+                    ge = [tr for (a, tr) in fs if a[0] == "le" and "nb_a_large" in show(a[1]) and ("curr_sbn" in show(a[2]) or re.match(r"^value(~\d+)?$", show(a[2])))]
                     found[v] = ("lt" if (lt and all(lt)) else ("ge" if (ge and all(ge)) else "?"))
         key = "%s block_length selection" % nm
         # `value` binds curr_sbn as u64
